@@ -23,8 +23,11 @@ RULE += (
     ' MSM with unrelated masks and the same body under another constellation; repr round trip also for'
     ' labelmsm=2.'
 )
+RULE += (
+    " Also: the reader round trip carries a CRC collider (same length, same checksum bytes) in front of the frame."
+)
 ASSUMPTIONS = ["reference CRC (two cross-checked implementations) and own header arithmetic are the oracle"]
-GATES = ["serialize_checked", "reparse_checked", "frame_roundtrip_checked", "repr_checked", "lengths_enumerated",
+GATES = ["reader_roundtrip_behind_collider", "serialize_checked", "reparse_checked", "frame_roundtrip_checked", "repr_checked", "lengths_enumerated",
          "alias_families", "reader_roundtrip_checked", "noncanonical_source_checked", "frame_as_payload",
          "msm_mask_limit_shapes", "steered_checksums"]
 
@@ -193,15 +196,28 @@ def one(ctx, payload, label):
         from vf import doubles
 
         third = max(1, len(want) // 3)
+        # in front of it, through the SAME reader: a different valid frame of the same length with the same CRC bytes
+        # (only one that parses on its own, so that every frame of the stream must come back)
+        front = b""
+        tw_ = streams.crc_collider(want, __import__("random").Random(len(want)))
+        if tw_ is not None and tw_ != want:
+            try:
+                if RTCMReader.parse(tw_).serialize() == tw_:
+                    front = tw_
+                    ctx.hit("reader_roundtrip_behind_collider")
+            except Exception:
+                pass
         for backend in ("file", "socket"):
             sock = None
             try:
                 if backend == "file":
-                    rdr = RTCMReader(io.BytesIO(want), quitonerror=2)
+                    rdr = RTCMReader(io.BytesIO(front + want), quitonerror=2)
                 else:
-                    sock = doubles.ScriptedSocket(want, [third, third, 1], budget=4 * len(want) + 64)
+                    sock = doubles.ScriptedSocket(front + want, [third, third, 1], budget=8 * len(want) + 64)
                     rdr = RTCMReader(sock, quitonerror=2, bufsize=max(1, len(want) // 4))
                 got = [(bytes(r), p_) for r, p_ in rdr]
+                if front and got and got[0][0] == front and got[0][1] is not None and got[0][1].serialize() == front:
+                    got = got[1:]
             except BaseException as e:
                 ctx.violation("reader-roundtrip-raised", f"{label}: reading the serialised frame back over a {backend} "
                               f"stream raised {type(e).__name__}: {e}", params)
